@@ -2205,3 +2205,13 @@ Proof.
     cbn [bytes_ok forallb] in OKp. rewrite !andb_true_iff, !byte_ok_iff in OKp.
     cbn [app le_dec] in *. lia.
 Qed.
+
+Lemma report_propagates fixed h buf kids f : In f kids -> reports_gen fixed f ->
+  reports_gen fixed (NVol h buf kids) /\ reports_gen fixed (NSec (sec_default 0 0 0 0 0) buf kids).
+Proof. intros; split; [eapply reports_child_vol|eapply reports_child_sec]; eauto. Qed.
+
+Lemma sum_fix data pre post :
+  (sum8 data + (0 - sum8 data) mod 256) mod 256 = 0 /\
+  (Z.even (zlen pre) = true ->
+   sum16 (pre ++ le_enc 2 ((0 - sum16 (pre ++ [0; 0] ++ post)) mod 65536) ++ post) = 0).
+Proof. split; [apply sum8_fix|apply sum16_fix]. Qed.
